@@ -177,7 +177,7 @@ package badger
 //@ loop 0 invariant [db]       dbInvK() && seenSince == clock() - store.ExpireInterval
 //@ loop 0 invariant [members]  forall p int :: off(r) <= p && p < off(r) + len(r) ==>
 //@        itvisited(it, nodeKey(elems(r)[p].ID)) && kvlive(nodeKey(elems(r)[p].ID)) && elems(r)[p] == kvget("store.Node", nodeKey(elems(r)[p].ID)) && store.eligibleHost(elems(r)[p], kind, seenSince)
-//@ loop 0 invariant [complete] forall k store.NodeID :: itvisited(it, nodeKey(k)) && kvlive(nodeKey(k)) && store.eligibleHost(kvget("store.Node", nodeKey(k)), kind, seenSince) ==> store.hasNode(r, k)
+//@ loop 0 invariant [complete] forall key string :: itvisited(it, key) && kvlive(key) && store.eligibleHost(kvget("store.Node", key), kind, seenSince) ==> store.inNodes(r, kvget("store.Node", key))
 //@ loop 0 invariant [distinct] store.distinctIDs(r)
 
 // ---- opening and migrating (C13) ----------------------------------------------------------------
